@@ -1,6 +1,8 @@
 // C41 correspondence.
 //  1. table: the decision table of the CURRENT overlay/reuse.go (printed by `extract c41-lines`, honouring
 //     VERIF_MUTANT_DIR) row by row — compared by the driver with the generated Lean definitions.
+//     leaf rows: <peer state> <peer dir> <snapshot cached> <snapshot dir> <dir of this connection>
+//     <rc: the re-load finds an entry> <rcdir: direction of that entry>.
 //  2. sched: every maximal interleaving of one dial / two simultaneous dials (snapshot, decide, reap steps) from every
 //     consistent pre-existing cache state, executed by a simulator over the CURRENT rows; the driver compares the
 //     final state with the Lean model and judges it against the property.
@@ -159,7 +161,13 @@ func (s *state) step(kind byte, i int) {
 		me := s.p[i]
 		peer := s.p[procPeer[i]].status
 		cur := s.cache[side]
-		a := leafRows[peer[0]+" "+peer[1]+" "+b(me.snap.conn != "")+" "+dirOr(me.snap)+" "+procDir[i]+" "+b(cur.conn != "")]
+		// the re-load leaves see the entry that is in the cache now: is there one (rc), and its direction (rcdir)
+		key := peer[0] + " " + peer[1] + " " + b(me.snap.conn != "") + " " + dirOr(me.snap) + " " + procDir[i] + " " + b(cur.conn != "") + " " + dirOr(cur)
+		a, ok := leafRows[key]
+		if !ok { // extractor and harness disagree about the row format: never continue with a zero action
+			fmt.Fprintf(os.Stderr, "c41: no table row for %q\n", key)
+			os.Exit(2)
+		}
 		cv := me.snap
 		if a.reload {
 			cv = cur
